@@ -103,7 +103,7 @@ func c07Builder(r *core.Run, withRace bool) *c07Build {
 	}
 	b.points = strings.TrimSpace(out)
 	b.run = filepath.Join(dir, "c07run")
-	if out, err := goBuild([]string{"-overlay", filepath.Join(dir, "overlay.json")}, b.run, "./cmd/c07run"); err != nil {
+	if out, err := goBuild([]string{"-tags", "verifsched", "-overlay", filepath.Join(dir, "overlay.json")}, b.run, "./cmd/c07run"); err != nil {
 		b.err = "building the instrumented explorer: " + out
 		return b
 	}
